@@ -289,4 +289,44 @@ Section Statements.
     - unfold faithful_result in H. destruct errs; [|discriminate].
       destruct (h_err (handler args)); inversion H. reflexivity.
   Qed.
+
+  (* the converse: on a well-shaped call of a function that has an error result, a non-nil error
+     returned by the handler is function-reported WHATEVER value it is (E is arbitrary: the value
+     may itself be a FunctionCallError carrying the opposite flag) *)
+  Lemma static_handler_error_reported : forall d s f args e,
+    new_callable d s = Some f -> d_err d = true ->
+    Forall2 (fun a p => arg_fits a p = true) args (d_ins d) ->
+    h_err (handler args) = Some e ->
+    call handler f args = CErr (Reported e).
+  Proof.
+    intros d s f args e H De F He. rewrite (static_call_faithful d s f args H F).
+    unfold faithful_result. rewrite De, He. reflexivity.
+  Qed.
+
+  Lemma dynamic_handler_error_reported : forall di s f args e,
+    new_dynamic di s = Some f ->
+    Forall2 (fun a p => arg_fits a p = true) args di ->
+    h_err (handler args) = Some e ->
+    call handler f args = CErr (Reported e).
+  Proof.
+    intros di s f args e H F He. rewrite (dynamic_call_faithful di s f args H F).
+    unfold faithful_result. rewrite He. reflexivity.
+  Qed.
 End Statements.
+
+(* a handler whose error VALUES are themselves call errors: an inner call's error passed on *)
+Inductive nested_err := PlainErr (k : Z) | CallErr (function_reported : bool) (k : Z).
+
+(* how Call attributes: by the constructor of call_err alone *)
+Definition is_function_reported {E : Type} (r : call_res Z E) : option bool :=
+  match r with CErr (Reported _) => Some true | CErr Shape => Some false | _ => None end.
+
+Lemma nested_error_flag_does_not_leak : forall d s f args (handler : list (arg Z) -> hres Z nested_err) b k,
+  new_callable d s = Some f -> d_err d = true ->
+  Forall2 (fun a p => arg_fits a p = true) args (d_ins d) ->
+  h_err (handler args) = Some (CallErr b k) ->
+  is_function_reported (call handler f args) = Some true.
+Proof.
+  intros d s f args handler b k H De F He.
+  rewrite (static_handler_error_reported Z nested_err handler d s f args _ H De F He). reflexivity.
+Qed.
